@@ -818,6 +818,18 @@ func (f *Frame) execInstr(b *ssa.BasicBlock, instr ssa.Instruction, st *State, g
 		} else {
 			f.safety(b, "nil", in, not(eq(x.T, "0")))
 			f.vals[in] = Val{T: "INTERIOR", LV: &LVal{Heap: e.fieldHeap(structT, in.Field), Ref: x.T, BaseT: ft, T: ft}}
+			if e.lockDiscipline && isCoreShared(in.X.Type()) {
+				top := f
+				for top.callerF != nil {
+					top = top.callerF
+				}
+				if _, local := in.X.(*ssa.Alloc); !local {
+					for k, lo := range top.lockObjs {
+						f.oblige("lock", f.oblName(fmt.Sprintf("%s:table-access[%s]#%d.%d", funcDisplay(f.fn), stt.Field(in.Field).Name(), f.callSiteN("t:"+stt.Field(in.Field).Name()), k+1)), g, not(eq(f.loadLV(st, lo), "0")),
+							"a core table reached through the client is accessed only while the client mutex is held", []string{"C11"}, in.Pos())
+					}
+				}
+			}
 			if e.lockDiscipline {
 				if gs := e.guardOf(in.X.Type()); gs != nil {
 					if _, local := in.X.(*ssa.Alloc); !local {
@@ -1312,4 +1324,14 @@ func (f *Frame) casesFor(b *ssa.BasicBlock, depth int) []string {
 		}
 	}
 	return out
+}
+
+// isCoreShared: pointer to core.Table or core.index - state that clients reach only through guarded fields
+func isCoreShared(t types.Type) bool {
+	pt, ok := t.Underlying().(*types.Pointer)
+	if !ok {
+		return false
+	}
+	n, ok := pt.Elem().(*types.Named)
+	return ok && n.Obj().Pkg() != nil && n.Obj().Pkg().Path() == modulePath+"/core" && (n.Obj().Name() == "Table" || n.Obj().Name() == "index")
 }
